@@ -32,7 +32,8 @@ class FinObj:
 
     @property
     def _fin_attrs(self):
-        return tuple(self.__dict__)
+        props = tuple(k for c in type(self).__mro__ for k, v in vars(c).items() if isinstance(v, property) and not k.startswith("_"))
+        return tuple(self.__dict__) + props
 
 
 import datetime as _datetime
@@ -51,7 +52,19 @@ _BIN = {ast.Add: operator.add, ast.Sub: operator.sub, ast.Mult: operator.mul, as
 _CMP = {ast.Eq: operator.eq, ast.NotEq: operator.ne, ast.Lt: operator.lt, ast.LtE: operator.le,
         ast.Gt: operator.gt, ast.GtE: operator.ge, ast.Is: operator.is_, ast.IsNot: operator.is_not,
         ast.In: lambda a, b: a in b, ast.NotIn: lambda a, b: a not in b}
-_SAFE_FUNCS = {"int": int, "abs": abs, "min": min, "max": max, "len": len, "range": range, "divmod": divmod,
+def _next(it, *default):
+    """next() on the eager lists this evaluator uses for generators: the first item (the list is not consumed - callers that call
+    next twice on one iterator are not modelled)"""
+    if not isinstance(it, (list, tuple)):
+        raise NotFinite("next of something that is not an evaluated generator")
+    if it:
+        return it[0]
+    if default:
+        return default[0]
+    raise StopIteration()
+
+
+_SAFE_FUNCS = {"next": _next, "iter": lambda x: list(x), "int": int, "abs": abs, "min": min, "max": max, "len": len, "range": range, "divmod": divmod,
                "tuple": tuple, "list": list, "sum": sum, "bool": bool, "str": str, "enumerate": lambda *a: list(enumerate(*a)),
                "set": set, "frozenset": frozenset, "sorted": sorted, "zip": lambda *a: list(zip(*a)), "reversed": lambda a: list(reversed(a)),
                "any": any, "all": all, "dict": dict}
@@ -137,6 +150,10 @@ def ev(node, env: dict, funcs: dict | None = None, methods: dict | None = None):
             return val
         if isinstance(n, ast.Compare):
             left = e(n.left, env)
+            if len(n.ops) == 1 and isinstance(n.ops[0], (ast.Eq, ast.NotEq, ast.Lt, ast.LtE, ast.Gt, ast.GtE)):
+                res = _CMP[type(n.ops[0])](left, e(n.comparators[0], env))
+                # element-wise comparison of a modelled array gives an array, which is handed on as it is
+                return res if getattr(res, "_fin_elementwise", False) else bool(res)
             for op, c in zip(n.ops, n.comparators):
                 right = e(c, env)
                 if not _CMP[type(op)](left, right):
@@ -210,7 +227,15 @@ def ev(node, env: dict, funcs: dict | None = None, methods: dict | None = None):
                     args.extend(e(a.value, env))
                 else:
                     args.append(e(a, env))
-            kws = {k.arg: e(k.value, env) for k in n.keywords}
+            kws = {}
+            for k in n.keywords:
+                if k.arg is None:                      # **mapping
+                    mp = e(k.value, env)
+                    if not isinstance(mp, dict) or not all(isinstance(x, str) for x in mp):
+                        raise NotFinite("** of something that is not a dict with string keys")
+                    kws.update(mp)
+                else:
+                    kws[k.arg] = e(k.value, env)
             if name in funcs:
                 return funcs[name](*args, **kws)
             if name in env and callable(env[name]):
@@ -370,6 +395,13 @@ def run_function(f, args: dict, funcs=None, env=None, final_env=None, methods=No
             if isinstance(st, ast.Expr) and isinstance(st.value, ast.Call):
                 ev(st.value, env, funcs, methods)
                 continue
+            if isinstance(st, ast.Expr) and isinstance(st.value, ast.Yield):
+                # a generator function is evaluated eagerly: its items are collected and handed back as a list
+                env.setdefault("\0yield", []).append(ev(st.value.value, env, funcs, methods) if st.value.value is not None else None)
+                continue
+            if isinstance(st, ast.Expr) and isinstance(st.value, ast.YieldFrom):
+                env.setdefault("\0yield", []).extend(ev(st.value.value, env, funcs, methods))
+                continue
             if isinstance(st, ast.If):
                 run(st.body if ev(st.test, env, funcs, methods) else st.orelse)
                 continue
@@ -377,7 +409,7 @@ def run_function(f, args: dict, funcs=None, env=None, final_env=None, methods=No
                 # handlers: catch-all (bare / Exception) or a named built-in error; a `raise` executed by the evaluated code reaches
                 # catch-all handlers only (its type is not modelled); Python errors of the modelled operations reach the first
                 # handler whose class matches
-                known = {"ValueError": ValueError, "TypeError": TypeError, "IndexError": IndexError, "KeyError": KeyError,
+                known = {"StopIteration": StopIteration, "ValueError": ValueError, "TypeError": TypeError, "IndexError": IndexError, "KeyError": KeyError,
                          "AttributeError": AttributeError, "ZeroDivisionError": ZeroDivisionError, "LookupError": LookupError,
                          "ArithmeticError": ArithmeticError, "Exception": Exception, "BaseException": BaseException}
                 hs = []
@@ -395,7 +427,7 @@ def run_function(f, args: dict, funcs=None, env=None, final_env=None, methods=No
                     if h is None:
                         raise
                     run(h.body)
-                except (TypeError, ValueError, IndexError, KeyError, AttributeError, ZeroDivisionError) as ex:
+                except (TypeError, ValueError, IndexError, KeyError, AttributeError, ZeroDivisionError, StopIteration) as ex:
                     h = next((h for cl, h in hs if isinstance(ex, cl)), None)
                     if h is None:
                         raise
@@ -437,15 +469,19 @@ def run_function(f, args: dict, funcs=None, env=None, final_env=None, methods=No
             raise NotFinite("assignment target")
 
     from .core import strip_docstring
+    is_gen = any(isinstance(n, (ast.Yield, ast.YieldFrom)) for n in ast.walk(f) if n is not f) and not any(
+        isinstance(n, (ast.Yield, ast.YieldFrom)) for g in ast.walk(f) if isinstance(g, (ast.FunctionDef, ast.Lambda)) and g is not f for n in ast.walk(g))
+    if is_gen:
+        env["\0yield"] = []
     try:
         run(strip_docstring(f.body))
     except _Ret as r:
         if final_env is not None:
             final_env.update(env)
-        return r.v
+        return env["\0yield"] if is_gen else r.v
     if final_env is not None:
         final_env.update(env)
-    return None
+    return env["\0yield"] if is_gen else None
 
 
 # ---------------------------------------------------------------------------------------------------------------------------------
@@ -677,4 +713,56 @@ def run_prefix(f, stop, env, funcs=None, methods=None):
                     env.pop(x.id, None)
                 elif isinstance(x, ast.Attribute) and isinstance(x.ctx, ast.Store) and dotted(x):
                     env.pop(dotted(x), None)
+    return env
+
+
+def module_funcs(mod, funcs=None, env=None):
+    """{name: callable} evaluating the module-level functions of `mod` with this evaluator (so that an extracted helper is followed
+    instead of making the caller not evaluable); `funcs` are visible to the helpers too"""
+    out = dict(funcs or {})
+
+    def make(f):
+        a = f.args
+        ps = [x.arg for x in a.posonlyargs + a.args]
+        kwo = [x.arg for x in a.kwonlyargs]
+
+        def call(*args, **kw):
+            if len(args) > len(ps) and not a.vararg:
+                raise NotFinite(f"too many arguments for {f.name}")
+            bound = dict(zip(ps, args))
+            if a.vararg:
+                bound[a.vararg.arg] = tuple(args[len(ps):])
+            extra = {k: v for k, v in kw.items() if k not in ps and k not in kwo}
+            bound.update({k: v for k, v in kw.items() if k in ps or k in kwo})
+            if a.kwarg:
+                bound[a.kwarg.arg] = extra
+            elif extra:
+                raise NotFinite(f"unexpected keyword for {f.name}")
+            for nm, d in zip(reversed(ps), reversed(a.defaults)):
+                if nm not in bound:
+                    bound[nm] = ev(d, dict(env or {}), out)
+            for nm, d in zip(kwo, a.kw_defaults):
+                if nm not in bound and d is not None:
+                    bound[nm] = ev(d, dict(env or {}), out)
+            missing = [p_ for p_ in ps + kwo if p_ not in bound]
+            if missing:
+                raise NotFinite(f"missing arguments {missing} for {f.name}")
+            return run_function(f, bound, out, dict(env or {}))
+        return call
+    for st in mod.tree.body:
+        if isinstance(st, ast.FunctionDef) and st.name not in out:
+            out[st.name] = make(st)
+    return out
+
+
+def module_constants(mod, env=None, funcs=None):
+    """the module-level `NAME = <expression>` assignments evaluated in order (those that are not finitely evaluable are skipped);
+    returns the environment"""
+    env = dict(env or {})
+    for st in mod.tree.body:
+        if isinstance(st, ast.Assign) and len(st.targets) == 1 and isinstance(st.targets[0], ast.Name):
+            try:
+                env[st.targets[0].id] = ev(st.value, env, funcs)
+            except (NotFinite, Raised, TypeError, ValueError, KeyError, AttributeError, IndexError):
+                env.pop(st.targets[0].id, None)
     return env
